@@ -24,7 +24,7 @@ def build_case(rng, thorough):
 	"""A network with attributes at node / product / (node, product) level. Returns (kind, spec, builder)."""
 	kind = rng.choice(['single', 'single', 'multi', 'multi-keyed'])
 	if kind == 'single':
-		spec = simlib.gen_spec(rng, thorough, {'pcostfn': 0})   # cost FUNCTIONS are callables: documented as neither serialised nor compared
+		spec = _gen_spec(rng, thorough, {'pcostfn': 0})   # cost FUNCTIONS are callables: documented as neither serialised nor compared
 		randomise = rng.random() < .5
 		rs = rng.randint(0, 10 ** 6)
 		def build_single():
@@ -246,6 +246,15 @@ def classify(bad):
 	return None
 
 
+def _gen_spec(*a, **k):
+	"""simlib.gen_spec without NumPy-array demand lists: `demand_list` is documented as a list, and only documented attribute types are
+	promised to serialise and to compare."""
+	spec = simlib.gen_spec(*a, **k)
+	for nd in spec['nodes'].values():
+		nd.pop('np_demand', None)
+	return spec
+
+
 def store_case(rep, drv, rng, tmpdir):
 	"""Operation sequences on one instance file vs the Lean store model (data identified by a token)."""
 	from stockpyl.instances import save_instance, load_instance
@@ -339,7 +348,7 @@ def parse_header(h):
 def csv_case(rep, rng, thorough, tmpdir):
 	"""Every CSV cell equals the state variable its header names."""
 	from stockpyl import sim_io
-	spec = simlib.gen_spec(rng, thorough, {'pcostfn': 0})
+	spec = _gen_spec(rng, thorough, {'pcostfn': 0})
 	T = min(spec['T'], 6)
 	suppress = rng.random() < .6
 	case = {'spec': spec, 'suppress_dummy_products': suppress}
@@ -453,7 +462,7 @@ def debug_save_case(rep, rng, tmpdir):
 	its demand sources, disruption processes, attributes and state variables are what they were, and it simulates as before."""
 	from stockpyl import sim_io
 	from stockpyl.sim import simulation
-	spec = simlib.gen_spec(rng, False, {'prandom': .9, 'pcostfn': 0})
+	spec = _gen_spec(rng, False, {'prandom': .9, 'pcostfn': 0})
 	case = {'spec': spec}
 	rep.case('roundtrip', case, nontrivial=True); rep.count('roundtrip:debug-save-of-a-simulated-network')
 	path = os.path.join(tmpdir, 'dbg_%d.json' % rng.randint(0, 10 ** 9))
